@@ -498,6 +498,7 @@ def run(chk, cases):
         shards.append(cm.HEADER + "From QV Require Import Base.Alg Base.Mat Base.Tens Base.Util Model.C04 Model.C04x.\n"
                       "Definition cs_new : list case04 := %s.\nDefinition cs_old : list case04 := %s.\n"
                       "Eval vm_compute in (bad case_agrees cs_new).\nEval vm_compute in (bad case_agrees cs_old).\n"
+                      "Eval vm_compute in (bad case_values_agree cs_new).\n"
                       % (body.replace("VARIANT", "CopyRegistered"), body.replace("VARIANT", "CopyUnregistered")))
         index.append(k)
     for k, (rc, out) in zip(index, cm.coq_eval(PID, shards)):
@@ -506,8 +507,15 @@ def run(chk, cases):
             continue
         vals = cm.parse_evals(out)
         badl, bad_old = cm.parse_natlist(vals[0]), cm.parse_natlist(vals[1])
+        bad_values = cm.parse_natlist(vals[2]) if len(vals) > 2 else []
         chk.corr["cases"] += min(CH, len(items) - k)
         chk.corr["disagreements"] += len(badl)
+        for i in [x for x in badl if x in bad_values][:2]:
+            # the values read in the program / the final data of an object are not the model's - and the model's are, by
+            # c04_read_presents_current / c04_exit_restores, the ones the property demands: the program is a failing input
+            chk.violation("correspondence:values", "values read during the program or final tag / data of an object differ from Model.C04.exec (exact "
+                          "integers), i.e. from the value the property demands; program %s" % json.dumps(meta[k + i])[:900], "correspondence",
+                          meta[k + i], found_input=True)
         for i in badl[:3]:
             which = "; it agrees with the pinned variant (copies made by apply() are not registered)" if i not in bad_old else ""
             chk.violation("correspondence:program", "implementation differs from Model.C04.exec on program %s%s"
